@@ -18,6 +18,7 @@ import (
 type dparty struct{ uri, tag string }
 
 type dlg struct {
+	pinStart time.Time
 	n       int
 	svc     int
 	kind    string // invite | subscribe
@@ -149,7 +150,6 @@ func (w *dialogWorld) respondFromBackend(svc int, o *wire.Obs, id string, status
 		}
 	}
 	_, ok := w.Net.WaitCase(rid, func(x []*wire.Obs) bool { return len(x) >= 1 }, w.BarrierWait)
-	w.Net.Forget(rid)
 	return ok
 }
 
@@ -258,6 +258,12 @@ func scenarioDialog() int {
 				s.Listens[0].Backends = append(append([]string{}, be[:3]...), be[5])
 			}
 			_ = p
+			if s.Index%4 == 3 {
+				// sweeps of the pin table happen every 3 s here: stickiness must survive the
+				// sweeps, for dialogs kept alive by the Expires of their establishing answer
+				// (service 7) and for plain dialogs inside their 3 s lifetime (service 3)
+				s.DialogTimeout = 3
+			}
 		}
 	}})
 	if err != nil {
@@ -336,6 +342,16 @@ func (w *dialogWorld) history(h int) {
 	}
 }
 
+// every class of final answer a BYE can get
+var finalStatuses = []int{401, 200, 407, 481, 302, 500, 603, 404, 408, 486, 202, 301, 400, 403, 480, 487, 503, 504, 600, 604}
+var byeStatusCursor int
+
+// nextByeStatus walks through the classes so that a run covers them all, not a random few
+func nextByeStatus() int {
+	byeStatusCursor++
+	return finalStatuses[(byeStatusCursor-1)%len(finalStatuses)]
+}
+
 var inDialogMethods = []string{"ACK", "BYE", "INVITE", "UPDATE", "INFO", "PRACK", "MESSAGE", "REFER", "NOTIFY", "SUBSCRIBE", "OPTIONS"}
 
 func (w *dialogWorld) stepDialog(d *dlg) {
@@ -363,7 +379,12 @@ func (w *dialogWorld) stepDialog(d *dlg) {
 			w.respondFromBackend(d.svc, be, id, 100, "") // no To-tag: no dialog yet
 		}
 		status := []int{180, 183, 200, 200, 486}[g.R.Intn(5)]
-		if !w.respondFromBackend(d.svc, be, id, status, d.b.tag) {
+		var lifetime []sip.Header
+		if w.Svcs[d.svc].DialogTimeout > 0 && d.svc%8 == 7 {
+			lifetime = append(lifetime, sip.Header{Name: "Expires", Value: "900"})
+		}
+		d.pinStart = time.Now()
+		if !w.respondFromBackend(d.svc, be, id, status, d.b.tag, lifetime...) {
 			w.run.Inconclusive(1)
 			d.ended = true
 			return
@@ -376,6 +397,13 @@ func (w *dialogWorld) stepDialog(d *dlg) {
 		if !d.pinned {
 			d.ended = true
 			return
+		}
+		if sv := w.Svcs[d.svc]; sv.DialogTimeout > 0 && d.svc%8 != 7 && d.kind == "invite" {
+			// a plain dialog on a short-timeout service: judged only while provably inside its lifetime
+			if time.Since(d.pinStart) > time.Duration(sv.DialogTimeout)*time.Second-700*time.Millisecond {
+				d.ended = true
+				return
+			}
 		}
 		w.probe(d)
 	}
@@ -505,7 +533,7 @@ func (w *dialogWorld) probe(d *dlg) {
 	}
 	if method == "BYE" && len(be) == 1 {
 		// the backend answers the BYE: the dialog is over
-		w.respondFromBackend(d.svc, be[0], id, []int{200, 481, 500}[g.R.Intn(3)], "")
+		w.respondFromBackend(d.svc, be[0], id, finalStatuses[g.R.Intn(len(finalStatuses))], "")
 		d.ended = true
 		w.stats["dialogs_ended_by_bye"]++
 	}
@@ -524,7 +552,6 @@ type ptDialog struct {
 	dlg
 	expires  int // Expires of the establishing response (0 = absent)
 	life     time.Duration
-	pinStart time.Time
 	pinDone  time.Time
 	be       *wire.Obs
 	dissolve string // "", bye, terminated, dontcare
@@ -560,7 +587,7 @@ func scenarioPinTime() int {
 			break
 		}
 		var evs []ptEvent
-		plans := []string{"early+late", "early+late", "bye", "notify-terminated", "notify-active", "notify-reason", "expires-larger", "expires-smaller", "early+late"}
+		plans := []string{"early+late", "early+late", "bye", "bye", "bye", "notify-terminated", "notify-active", "notify-reason", "expires-larger", "expires-smaller", "early+late"}
 		for i := 0; i < perBatch; i++ {
 			d := &ptDialog{}
 			d.n, d.svc, d.backend, d.kind = i, g.R.Intn(len(w.Svcs)), -1, "invite"
@@ -585,7 +612,7 @@ func scenarioPinTime() int {
 			}
 			switch plan {
 			case "bye":
-				evs = append(evs, ptEvent{at: t0 + frac(10, 40), d: d, what: "bye", arg: fmt.Sprint([]int{200, 481, 500, 603}[g.R.Intn(4)])})
+				evs = append(evs, ptEvent{at: t0 + frac(10, 40), d: d, what: "bye", arg: fmt.Sprint(nextByeStatus())})
 				evs = append(evs, ptEvent{at: t0 + frac(45, 60), d: d, what: "probe", arg: plan})
 			case "notify-terminated":
 				evs = append(evs, ptEvent{at: t0 + frac(10, 40), d: d, what: "notify", arg: "terminated"})
